@@ -53,6 +53,9 @@ type HistoryOptions struct {
 	InSyncAtEnd bool
 	// Focus biases the choice of keys towards these classes (C05 profile churn).
 	Focus []string
+	// FlapPercent is the share (in %) of steps that are a "profile flap" macro-op (see GenHistory);
+	// 0 means the default of 6.
+	FlapPercent int
 }
 
 // History is a generated update history ending in state Final, followed by the closing
@@ -69,7 +72,7 @@ type History struct {
 // HasDistortion reports whether the history contains at least one non-trivial distortion
 // (coalescing, duplicate, reversion or spurious delete).
 func (h *History) HasDistortion() bool {
-	return h.Distortions["catchup"]+h.Distortions["dup"]+h.Distortions["revert"]+h.Distortions["spurious-delete"] > 0
+	return h.Distortions["catchup"]+h.Distortions["dup"]+h.Distortions["revert"]+h.Distortions["spurious-delete"]+h.Distortions["profile-flap"] > 0
 }
 
 // GenHistory generates a history: a random walk of datastore writes over the universe, delivered
@@ -82,6 +85,11 @@ func (h *History) HasDistortion() bool {
 //     catches up later;
 //   - spurious delete: a nil is delivered for an existing key, which is re-created later;
 //   - permutation of independent keys: lagging keys catch up in PRNG order;
+//   - profile flap (tag "profile-flap"): inside ONE OnUpdates call, hence inside one flush window
+//     whatever the flush strategy: every local endpoint that names profile P is deleted (a spurious
+//     delete), P's ProfileRules are written to another candidate (valid -> absent / invalid /
+//     other valid, absent -> valid, ...), and the endpoints are re-created with the values they
+//     had.  P goes inactive and active again between two flushes while its rules change;
 //   - batching: 1..4 KVs per OnUpdates call;
 //   - flush points: after every update / after PRNG batches / only at the end;
 //   - in-sync anywhere (before the first update, in the middle, or after the last).
@@ -166,9 +174,64 @@ func GenHistory(r *rand.Rand, u *Universe, opts HistoryOptions) *History {
 		}
 	}
 
+	flapPct := opts.FlapPercent
+	if flapPct == 0 {
+		flapPct = 6
+	}
+	// profileFlap emits the macro-op; it reports false if no profile is named by a local endpoint.
+	profileFlap := func() bool {
+		// profiles named by the delivered (valid) values of local endpoints
+		users := map[string][]int{}
+		for _, k := range u.LocalEndpointKeys() {
+			if v := delivered[k]; v != Absent && u.Keys[k].Values[v].Valid {
+				for _, p := range u.profileIDsOf(k, v) {
+					users[p] = append(users[p], k)
+				}
+			}
+		}
+		var cands []int // ProfileRules keys of profiles in use
+		for _, k := range u.KeysOfClass(ClassProfileRules) {
+			if len(users[u.profileNameOfRulesKey(k)]) > 0 {
+				cands = append(cands, k)
+			}
+		}
+		if len(cands) == 0 {
+			return false
+		}
+		pk := cands[r.Intn(len(cands))]
+		eps := users[u.profileNameOfRulesKey(pk)]
+		nv := r.Intn(len(u.Keys[pk].Values)+1) - 1
+		if nv == truth[pk] {
+			nv = (nv+2)%(len(u.Keys[pk].Values)+1) - 1
+		}
+		emit()
+		var kvs []KV
+		seen := map[int]bool{}
+		for _, k := range eps {
+			if !seen[k] {
+				seen[k] = true
+				kvs = append(kvs, KV{k, Absent})
+			}
+		}
+		past[pk] = append(past[pk], truth[pk])
+		truth[pk] = nv
+		delivered[pk] = nv
+		delete(lagging, pk)
+		kvs = append(kvs, KV{pk, nv})
+		for _, kv := range append([]KV(nil), kvs[:len(kvs)-1]...) {
+			kvs = append(kvs, KV{kv.Key, delivered[kv.Key]}) // re-create with the value it had
+		}
+		batch, batchTag = kvs, "profile-flap"
+		emit()
+		return true
+	}
+
 	for step := 0; step < opts.Steps; step++ {
 		if step == inSyncStep {
 			sendInSync()
+		}
+		if r.Intn(100) < flapPct && profileFlap() {
+			continue
 		}
 		switch c := r.Intn(100); {
 		case c < 55: // datastore write
